@@ -11,6 +11,7 @@
 //!           byte-identical to G1, with every resource on the same binding slot (group, name, location, count).
 mod names;
 mod reelab;
+mod tmpl;
 
 use crate::compile_util::*;
 use crate::declgen;
@@ -229,6 +230,9 @@ fn first_generation(id: &str) -> Option<CompileOutcome> {
     } else if let Some(seed) = id.strip_prefix("lit:") {
         let seed: u64 = seed.parse().ok()?;
         Some(compile_src(&literal_program(&mut Rng::new(seed)), Tgt::Dx, Mode::NoPipeline))
+    } else if let Some(seed) = id.strip_prefix("tpl:") {
+        let seed: u64 = seed.parse().ok()?;
+        Some(compile_src(&tmpl::source(seed), Tgt::Dx, Mode::NoPipeline))
     } else if let Some(rest) = id.strip_prefix("disk:") {
         let (root, entry) = rest.split_once('|')?;
         Some(compile_disk(root, entry, Tgt::Dx, Mode::NoPipeline))
@@ -274,7 +278,19 @@ fn run_one(id: &str, out: &mut Out, hist: &mut Hist) {
                     let p2 = &ps2[0];
                     if p2.data != p1.data {
                         hist.add("not-fixpoint-text");
-                        format!("FAIL:second generation differs: {}", first_diff(&text1, &p2.text()))
+                        let d = first_diff(&text1, &p2.text());
+                        // template stream: the generator's own record of argument kinds names the known class
+                        let tag = id
+                            .strip_prefix("tpl:")
+                            .and_then(|s| s.parse::<u64>().ok())
+                            .and_then(|seed| {
+                                let prog = tmpl::generate(&mut Rng::new(seed), &mut Hist::default());
+                                let line = d.strip_prefix("line ")?.split(':').next()?.parse::<usize>().ok()?;
+                                tmpl::classify(&prog, &text1, line)
+                            })
+                            .map(|t| format!(" {}", t))
+                            .unwrap_or_default();
+                        format!("FAIL:second generation differs: {}{}", d, tag)
                     } else if p2.slots != p1.slots {
                         hist.add("not-fixpoint-slots");
                         format!("FAIL:binding slots differ between generations: {:?} vs {:?}", p1.slots, p2.slots)
@@ -305,6 +321,8 @@ fn dump(id: &str) {
         render(&gen_program(&mut Rng::new(seed.parse().unwrap()), &GenOpts::default()), &|_| true)
     } else if let Some(seed) = id.strip_prefix("lit:") {
         literal_program(&mut Rng::new(seed.parse().unwrap()))
+    } else if let Some(seed) = id.strip_prefix("tpl:") {
+        tmpl::source(seed.parse().unwrap())
     } else if let Some(h) = id.strip_prefix("text:") {
         String::from_utf8_lossy(&unhex(h).unwrap_or_default()).to_string()
     } else {
@@ -338,6 +356,8 @@ pub fn run(args: &Args, out: &mut Out) {
             render(&gen_program(&mut Rng::new(seed.parse().unwrap_or(0)), &GenOpts::default()), &|_| true)
         } else if let Some(seed) = id.strip_prefix("lit:") {
             literal_program(&mut Rng::new(seed.parse().unwrap_or(0)))
+        } else if let Some(seed) = id.strip_prefix("tpl:") {
+            tmpl::source(seed.parse().unwrap_or(0))
         } else if let Some(h) = id.strip_prefix("text:") {
             String::from_utf8_lossy(&unhex(h).unwrap_or_default()).to_string()
         } else {
@@ -403,6 +423,15 @@ pub fn run(args: &Args, out: &mut Out) {
         let _ = literal_program_h(&mut Rng::new(seed), &mut lit_hist);
         run_one(&format!("lit:{}", seed), out, &mut hist);
     }
+    // the template stream: value parameters / deduced type parameters combined with untyped literals
+    let ntpl = n / 2;
+    let mut tpl_hist = Hist::default();
+    for _ in 0..ntpl {
+        let seed = rng.next() >> 16;
+        let _ = tmpl::generate(&mut Rng::new(seed), &mut tpl_hist);
+        run_one(&format!("tpl:{}", seed), out, &mut hist);
+    }
+    out.stat(&format!("{{\"stream\":\"templates\",\"programs\":{},\"hist\":{}}}", ntpl, tpl_hist.json()));
     let corpus = repo_corpus(&repo);
     let take = if args.thorough() { corpus.len() } else { corpus.len().min(31) };
     let step = (corpus.len() / take.max(1)).max(1);
